@@ -25,6 +25,28 @@ def _raised_by_repo(tb):
     return os.path.abspath(tb.tb_frame.f_code.co_filename).startswith(root)
 
 
+def _interrupted_in_repo(tb):
+    """the frame that was executing when the watchdog fired (the one below the signal handler) is code of the dynetx package under test"""
+    import os
+    import dynetx
+    root = os.path.dirname(os.path.abspath(dynetx.__file__)) + os.sep
+    frames = []
+    while tb is not None:
+        frames.append(tb.tb_frame)
+        tb = tb.tb_next
+    while frames and frames[-1].f_code.co_name == 'on_alarm':
+        frames.pop()
+    # (the interrupted frame may be inside networkx / the standard library, called from dynetx: look for the innermost dynetx frame
+    # that is not followed by harness frames)
+    for fr in reversed(frames):
+        fn_ = os.path.abspath(fr.f_code.co_filename)
+        if fn_.startswith(root):
+            return True
+        if os.sep + 'verif' + os.sep in fn_ or fn_.startswith(os.path.dirname(os.path.abspath(__file__))):
+            return False
+    return False
+
+
 def __getattr__(name):
     fn = _lookup(name)
     if not (callable(fn) and len(name) > 4 and name[0] == 'c' and name[1:3].isdigit() and name[3] == '_'):
@@ -34,11 +56,36 @@ def __getattr__(name):
         """an exception that the code under test raises while the part queries a graph built by an accepted history is a
         violation of the part's property (the queries are total on such graphs); an exception of the harness is a crash"""
         import sys
+        import signal
         import traceback
         from bounded import core
         core.CURRENT = None
+        budget = 1500 if tier == 'quick' else 7200
+
+        class PartTimeout(Exception):
+            pass
+
+        def on_alarm(signum, frame):
+            raise PartTimeout('part %s exceeded %d s' % (name, budget))
+        old = None
+        try:
+            old = signal.signal(signal.SIGALRM, on_alarm)
+            signal.alarm(budget)
+        except (ValueError, AttributeError):
+            old = None              # (not in the main thread: no watchdog)
         try:
             return fn(tier, seed, *a, **kw)
+        except PartTimeout:
+            # a call that does not come back: a violation when the time is being spent inside the code under test
+            et, ev, tb = sys.exc_info()
+            if not _interrupted_in_repo(tb):
+                raise
+            cur = core.CURRENT or (None, None, None)
+            return {'coverage': {'evaluations': 1, 'distinct_nontrivial': 1, 'rule': 'aborted: the code under test did not return within the budget',
+                                 'samples': [{}], 'exhaustive': False, 'bound': '', 'label': 'bounded stand-in (never counted as proved)'},
+                    'violations': [{'check': 'C%s.does_not_return_on_accepted_history' % name[1:3], 'class': cur[0], 'edge_removal': cur[1],
+                                    'history': core._j(cur[2]) if cur[2] is not None else None,
+                                    'detail': 'the part exceeded its budget of %d s while executing the code under test\n%s' % (budget, ''.join(traceback.format_tb(tb)[-3:]))}]}
         except Exception:
             et, ev, tb = sys.exc_info()
             if not _raised_by_repo(tb):
@@ -50,6 +97,13 @@ def __getattr__(name):
                                     'history': core._j(cur[2]) if cur[2] is not None else None,
                                     'detail': '%s: %s raised by the code under test while the harness queried a graph built by an accepted '
                                               'history\n%s' % (et.__name__, ev, ''.join(traceback.format_tb(tb)[-3:]))}]}
+        finally:
+            try:
+                signal.alarm(0)
+                if old is not None:
+                    signal.signal(signal.SIGALRM, old)
+            except (ValueError, AttributeError):
+                pass
     guarded.__name__ = name
     return guarded
 
